@@ -1408,3 +1408,275 @@ Proof.
     rewrite take_app_exact, drop_app_exact. reflexivity. }
   rewrite R. reflexivity.
 Qed.
+
+(* ------------------------------------------------------------------ *)
+(* the whole packet stream: what is outside the model, what is skipped  *)
+(* ------------------------------------------------------------------ *)
+(* the only packet on which the model gives up: compressed data, algorithm 2, well-formed zlib header *)
+Theorem unmodelled_only_zlib : forall c P tag body complete,
+  read_packet c P tag body complete = RUnmod ->
+  tag = 8 /\ exists r, body = 2 :: r /\ zlib_header_ok r = true.
+Proof.
+  intros c P tag body complete H. unfold read_packet in H.
+  assert (Fin : forall p, fin complete p <> RUnmod) by (intros p; unfold fin; destruct complete; discriminate).
+  assert (Rd : forall e, rd_of_err e <> RUnmod).
+  { intros e. unfold rd_of_err. destruct (String.eqb e miss); [discriminate|]. destruct (String.eqb e eof); discriminate. }
+  destruct ((tag =? 2) || (tag =? 6) || (tag =? 14)).
+  { exfalso. destruct body as [|v b]; [destruct complete; discriminate|].
+    destruct (v <? 4).
+    { destruct (tag =? 2); [destruct (parse_sig_v3 _) | destruct (parse_key_v3 _)]; try discriminate; eapply Fin; eauto. }
+    destruct (tag =? 2).
+    - destruct (parse_sig _) as [[s ?]|e|s]; try discriminate; [eapply Fin | eapply Rd]; eauto.
+    - destruct (parse_public_key _ _ _) as [[k ?]|e|s]; try discriminate; [eapply Fin | eapply Rd]; eauto. }
+  destruct ((tag =? 5) || (tag =? 7)).
+  { exfalso. destruct (parse_public_key _ _ _) as [[k tail]|e|s]; try discriminate; [|eapply Rd; eauto].
+    destruct (parse_secret_tail _ _ _ _ _) as [u|e|s]; try discriminate. eapply Rd; eauto. }
+  destruct (tag =? 13). { exfalso. eapply Fin; eauto. }
+  destruct (tag =? 1). { exfalso. destruct (parse_enckey body); try discriminate. eapply Fin; eauto. }
+  destruct (tag =? 3).
+  { exfalso. destruct body as [|v [|cph r]]; try discriminate.
+    destruct (negb (v =? 4)); try discriminate. destruct (cipher_block_size cph =? 0); try discriminate.
+    destruct (s2k_parse P complete r); try discriminate. destruct (64 <=? lenN rest); try discriminate. eapply Fin; eauto. }
+  destruct (tag =? 4). { exfalso. destruct (parse_onepass body); try discriminate. eapply Fin; eauto. }
+  destruct (tag =? 17). { exfalso. destruct (complete && _); discriminate. }
+  destruct (tag =? 8) eqn:E8.
+  { apply N.eqb_eq in E8. split; auto. destruct body as [|a r]; [discriminate|].
+    destruct ((a =? 1) || (a =? 3)); [discriminate|].
+    destruct (a =? 2) eqn:E2; [|discriminate]. apply N.eqb_eq in E2. subst a.
+    destruct (zlib_header_ok r) eqn:Z; [|discriminate]. exists r. auto. }
+  destruct (tag =? 9); [discriminate|].
+  destruct (tag =? 18). { destruct body as [|v ?]; [discriminate|]. destruct (v =? 1); discriminate. }
+  destruct (tag =? 11). { destruct body as [|? [|n r]]; try discriminate. destruct (n + 4 <=? lenN r); discriminate. }
+  discriminate.
+Qed.
+
+(* packets of a type packet.Read does not know (marker 10, trust 12, private use 60..63, unassigned ...)
+   in front of any stream leave no trace in what ReadEntity sees *)
+Definition known_tag (t : N) : bool := mem_N t [1; 2; 3; 4; 5; 6; 7; 8; 9; 11; 13; 14; 17; 18].
+
+Lemma read_packet_unknown : forall c P tag body complete, known_tag tag = false ->
+  read_packet c P tag body complete = RSkip.
+Proof.
+  intros c P tag body complete H. unfold known_tag, mem_N in H. simpl in H.
+  repeat (apply orb_false_iff in H; destruct H as [? H]).
+  unfold read_packet.
+  repeat match goal with E : (tag =? _) = false |- _ => rewrite E; clear E end. reflexivity.
+Qed.
+
+Lemma new_tag_octet : forall tag, tag < 64 ->
+  (192 + tag <? 128) = false /\ (N.land (192 + tag) 64 =? 0) = false /\ N.land (192 + tag) 63 = tag.
+Proof.
+  assert (A : forallb (fun t => negb (192 + t <? 128) && negb (N.land (192 + t) 64 =? 0) && (N.land (192 + t) 63 =? t))
+                (map N.of_nat (seq 0 64)) = true) by (vm_compute; reflexivity).
+  intros tag H. rewrite forallb_forall in A.
+  assert (I : In tag (map N.of_nat (seq 0 64))).
+  { apply in_map_iff. exists (N.to_nat tag). split; [lia|]. apply in_seq. lia. }
+  specialize (A tag I). apply andb_true_iff in A. destruct A as [A A3]. apply andb_true_iff in A. destruct A as [A1 A2].
+  apply negb_true_iff in A1, A2. apply N.eqb_eq in A3. auto.
+Qed.
+
+Lemma read_n_app_exact : forall (a b : bytes), read_n (lenN a) (a ++ b) = Some (a, b).
+Proof.
+  intros a b. unfold read_n.
+  assert (L : lenN (a ++ b) = lenN a + lenN b) by (unfold lenN; rewrite app_length; lia).
+  rewrite L. replace (lenN a <=? lenN a + lenN b) with true by (symmetry; apply N.leb_le; lia).
+  replace (N.to_nat (lenN a)) with (length a) by (unfold lenN; lia).
+  rewrite take_app_exact, drop_app_exact. reflexivity.
+Qed.
+
+Lemma read_header_new_short : forall tag body rest, tag < 64 -> lenN body < 192 ->
+  read_header ((192 + tag) :: lenN body :: body ++ rest) = HPkt tag (BSpan (lenN body)) (body ++ rest).
+Proof.
+  intros tag body rest T L. unfold read_header.
+  destruct (new_tag_octet tag T) as (A1 & A2 & A3). rewrite A1, A2, A3.
+  unfold read_length. apply N.ltb_lt in L. rewrite L. reflexivity.
+Qed.
+
+Lemma events_fuel_skip_head : forall f c P tag body rest,
+  known_tag tag = false -> tag < 64 -> lenN body < 192 ->
+  events_fuel (S f) c P ((192 + tag) :: lenN body :: body ++ rest) = events_fuel f c P rest.
+Proof.
+  intros f c P tag body rest K T L.
+  cbn [events_fuel]. rewrite (read_header_new_short tag body rest T L).
+  cbn [read_body]. rewrite read_n_app_exact.
+  rewrite (read_packet_unknown c P tag body true K). reflexivity.
+Qed.
+
+Theorem unknown_packet_skipped : forall c P tag body rest,
+  known_tag tag = false -> tag < 64 -> lenN body < 192 ->
+  events_of c P ((192 + tag) :: lenN body :: body ++ rest) = events_of c P rest.
+Proof.
+  intros c P tag body rest K T L. unfold events_of.
+  rewrite (events_fuel_skip_head _ c P tag body rest K T L).
+  apply events_fuel_stable; simpl; rewrite ?app_length; lia.
+Qed.
+
+(* the stream-level form of C11_identity_bound / C11_subkey_bound: for EVERY octet string the
+   extended reader accepts, every child of the description is backed by an accepted signature *)
+Theorem stream_children_bound : forall c P private stream i,
+  pgp_key c P private stream = Ok i ->
+  exists e, read_entity c P (events_of c P stream) = Ok e /\
+    first_key (events_of c P stream) = Some (e_primary e) /\
+    forall child, In child (i_children i) ->
+      (exists id s, In id (e_ids e) /\ child = identity_info c (e_primary e) id /\
+         uid_followed_by (events_of c P stream) (id_name id) s /\ s_core s = id_self id /\
+         is_cert_type (sc_type (id_self id)) = true /\
+         sc_issuer (id_self id) = Some (key_id (p_H P) (e_primary e)) /\
+         sig_accepted c P (e_primary e) (uid_hash_input (e_primary e) (id_name id) ++ suffix (id_self id)) (id_self id)) \/
+      (exists sk s, In sk (e_subkeys e) /\ child = subkey_info c (p_H P) sk /\
+         subkey_followed_by (events_of c P stream) (sk_key sk) s /\ s_core s = sk_sig sk /\
+         sig_accepted c P (e_primary e) (binding_hash_input (e_primary e) (sk_key sk) ++ suffix (sk_sig sk)) (sk_sig sk)).
+Proof.
+  intros c P private stream i H.
+  destruct (children_are_bound_items _ _ _ _ _ H) as (e & R & Ch). exists e. split; auto.
+  destruct (identity_bound _ _ _ _ R) as (F & _ & Ids). split; auto.
+  intros child Hc. destruct (Ch child Hc) as [(id & Hi & E)|(sk & Hs & E)].
+  - left. destruct (Ids id Hi) as (s & U & Ec & T & Is & _ & Acc). exists id, s.
+    exact (conj Hi (conj E (conj U (conj Ec (conj T (conj Is Acc)))))).
+  - right. destruct (subkey_bound _ _ _ _ R sk Hs) as (s & U & Ec & _ & Acc & _). exists sk, s.
+    exact (conj Hs (conj E (conj U (conj Ec Acc)))).
+Qed.
+
+(* ------------------------------------------------------------------ *)
+(* changes of the primary key itself                                   *)
+(* ------------------------------------------------------------------ *)
+(* every message that is verified begins with the hashed form of the primary key ... *)
+Lemma uid_message_prefix : forall k u s,
+  uid_hash_input k u ++ suffix s =
+  (153 :: be16 (lenN (key_body k)) ++ key_body k) ++ (180 :: be32 (lenN u) ++ u) ++ suffix s.
+Proof. intros. unfold uid_hash_input, key_hash_input. rewrite <- !app_assoc. reflexivity. Qed.
+Lemma binding_message_prefix : forall k sk s,
+  binding_hash_input k sk ++ suffix s =
+  (153 :: be16 (lenN (key_body k)) ++ key_body k) ++ key_hash_input sk ++ suffix s.
+Proof. intros. unfold binding_hash_input, key_hash_input. rewrite <- !app_assoc. reflexivity. Qed.
+
+(* ... and that body is, octet for octet, the beginning of the key packet's body in the input *)
+Theorem key_packet_body_exact : forall P tag body complete sub sec k, bytes_ok body = true ->
+  read_packet fixed P tag body complete = RP (PKey sub sec k) -> exists tail, key_body k ++ tail = body.
+Proof.
+  intros P tag body complete sub sec k Hok H. unfold read_packet in H.
+  assert (Fin : forall p, fin complete p = RP (PKey sub sec k) -> p = PKey sub sec k).
+  { intros p E. unfold fin in E. destruct complete; [now inversion E | discriminate]. }
+  assert (Rd : forall e, rd_of_err e <> RP (PKey sub sec k)).
+  { intros e. unfold rd_of_err. destruct (String.eqb e miss); [discriminate|]. destruct (String.eqb e eof); discriminate. }
+  destruct ((tag =? 2) || (tag =? 6) || (tag =? 14)).
+  { destruct body as [|v b]; [destruct complete; discriminate|].
+    destruct (v <? 4).
+    { destruct (tag =? 2); [destruct (parse_sig_v3 _) | destruct (parse_key_v3 _)]; try discriminate;
+        apply Fin in H; discriminate. }
+    destruct (tag =? 2).
+    - destruct (parse_sig _) as [[s ?]|e|s]; try discriminate; [apply Fin in H; discriminate | exfalso; eapply Rd; eauto].
+    - destruct (parse_public_key fixed (p_ecok P) (v :: b)) as [[k' tail]|e|s] eqn:E; try discriminate.
+      + apply Fin in H. inversion H; subst k'. exists tail.
+        exact (parse_public_key_exact fixed (p_ecok P) _ _ _ eq_refl Hok E).
+      + exfalso; eapply Rd; eauto. }
+  destruct ((tag =? 5) || (tag =? 7)).
+  { destruct (parse_public_key fixed (p_ecok P) body) as [[k' tail]|e|s] eqn:E; try discriminate; [|exfalso; eapply Rd; eauto].
+    destruct (parse_secret_tail _ _ _ _ _) as [u|e|s]; try discriminate; [|exfalso; eapply Rd; eauto].
+    inversion H; subst k'. exists tail. exact (parse_public_key_exact fixed (p_ecok P) _ _ _ eq_refl Hok E). }
+  destruct (tag =? 13). { apply Fin in H. discriminate. }
+  destruct (tag =? 1). { destruct (parse_enckey body); try discriminate. apply Fin in H. discriminate. }
+  destruct (tag =? 3).
+  { destruct body as [|v [|cph r]]; try discriminate.
+    destruct (negb (v =? 4)); try discriminate. destruct (cipher_block_size cph =? 0); try discriminate.
+    destruct (s2k_parse P complete r); try discriminate. destruct (64 <=? lenN rest); try discriminate.
+    apply Fin in H. discriminate. }
+  destruct (tag =? 4). { destruct (parse_onepass body); try discriminate. apply Fin in H. discriminate. }
+  destruct (tag =? 17). { destruct (complete && _); discriminate. }
+  destruct (tag =? 8).
+  { destruct body as [|a r]; [discriminate|]. destruct ((a =? 1) || (a =? 3)); [discriminate|].
+    destruct (a =? 2); [|discriminate]. destruct (zlib_header_ok r); discriminate. }
+  destruct (tag =? 9); [discriminate|].
+  destruct (tag =? 18). { destruct body as [|v ?]; [discriminate|]. destruct (v =? 1); discriminate. }
+  destruct (tag =? 11). { destruct body as [|? [|n r]]; try discriminate. destruct (n + 4 <=? lenN r); discriminate. }
+  discriminate.
+Qed.
+
+(* The hypothesis for a CHANGED verification key.  [flip_sensitive P k0 genuine] speaks about what
+   verifies under the honest key k0; after a change of the primary key packet the verification key
+   is another key k1, and what the reader verifies under k1 are messages that begin with the body
+   of k1.  The honest statement is therefore about the pair (key, message): WHATEVER key the check
+   is run under, a message it accepts is one the holder of k0 signed.  For k = k0 this is
+   unforgeability.  For k <> k0 it is NOT a standard assumption and it is false for a key the
+   adversary chooses (he signs with his own key whatever he likes - and the description then shows
+   HIS fingerprint, which is what the property allows); for a key that results from flipping
+   bits of k0 while the signatures stay as they are it says that the unchanged signature values do
+   not happen to verify under the damaged key material: a statement about the primitives on
+   non-adversarial inputs, which the exhaustive single-bit sweep of the check tests empirically. *)
+Definition any_key_sensitive (P : params) (genuine : N -> bytes -> list bytes -> Prop) : Prop :=
+  forall c k msg s, sig_accepted c P k msg s -> genuine (sc_hash s) msg (sig_values s).
+
+Lemma any_key_sensitive_flip : forall P k0 genuine, any_key_sensitive P genuine -> flip_sensitive P k0 genuine.
+Proof. intros P k0 genuine H c msg s A. eapply H; eauto. Qed.
+
+(* under that hypothesis an entity that is accepted has the ORIGINAL primary key body: a change of the
+   primary key body changes every message that is verified, so no identity can be listed, and an
+   entity without identities is rejected; and every item that is listed is an original one *)
+Theorem bitflip_primary : forall strong c P k0 uids subs evs e,
+  any_key_sensitive P (genuine_of strong k0 uids subs) ->
+  sane_key k0 ->
+  read_entity c P evs = Ok e -> sane_key (e_primary e) ->
+  key_body (e_primary e) = key_body k0.
+Proof.
+  intros strong c P k0 uids subs evs e F S0 R S1.
+  destruct (identity_bound _ _ _ _ R) as (_ & N & A).
+  destruct (e_ids e) as [|i rest] eqn:Ei; [contradiction|].
+  destruct (A i (or_introl eq_refl)) as (s & _ & _ & _ & _ & _ & V).
+  apply F in V. destruct V as [(x & _ & Em & _)|(x & _ & Em & _)].
+  - unfold uid_hash_input in Em. rewrite <- !app_assoc in Em. apply key_hash_input_inj in Em; tauto.
+  - unfold uid_hash_input, binding_hash_input in Em. rewrite <- !app_assoc in Em. apply key_hash_input_inj in Em; tauto.
+Qed.
+
+Corollary changed_primary_rejected : forall strong c P k0 uids subs evs k1,
+  any_key_sensitive P (genuine_of strong k0 uids subs) ->
+  sane_key k0 -> sane_key k1 ->
+  first_key evs = Some k1 -> key_body k1 <> key_body k0 ->
+  forall e, read_entity c P evs <> Ok e.
+Proof.
+  intros strong c P k0 uids subs evs k1 F S0 S1 Fk Ne e R.
+  destruct (identity_bound _ _ _ _ R) as (Fe & _). rewrite Fk in Fe. inversion Fe; subst k1.
+  apply Ne. eapply bitflip_primary; eauto.
+Qed.
+
+(* the items: as C11_bitflip_identity / C11_bitflip_subkey, without assuming that the primary key is unchanged *)
+Theorem bitflip_items_any_key : forall strong c P k0 uids subs evs e,
+  any_key_sensitive P (genuine_of strong k0 uids subs) ->
+  sane_key k0 -> sane_key (e_primary e) ->
+  Forall (fun x => lenN (su_uid x) < 4294967296 /\ sane_sig (su_sig x)) uids ->
+  Forall (fun x => sane_key (ss_key x) /\ sane_sig (ss_sig x)) subs ->
+  read_entity c P evs = Ok e ->
+  (forall i, In i (e_ids e) -> lenN (id_name i) < 4294967296 -> sane_sig (id_self i) ->
+     exists x, In x uids /\ id_name i = su_uid x /\
+       sc_hashed (id_self i) = sc_hashed (su_sig x) /\ sig_header (id_self i) = sig_header (su_sig x) /\
+       (strong = true -> sig_values (id_self i) = sig_values (su_sig x))) /\
+  (forall sk, In sk (e_subkeys e) -> sane_key (sk_key sk) -> sane_sig (sk_sig sk) ->
+     exists x, In x subs /\ key_body (sk_key sk) = key_body (ss_key x) /\
+       sc_hashed (sk_sig sk) = sc_hashed (ss_sig x) /\ sig_header (sk_sig sk) = sig_header (ss_sig x) /\
+       (strong = true -> sig_values (sk_sig sk) = sig_values (ss_sig x))).
+Proof.
+  intros strong c P k0 uids subs evs e F S0 S1 SU SS R. split.
+  - intros i Hi Li Si. destruct (identity_bound _ _ _ _ R) as (_ & _ & A).
+    destruct (A i Hi) as (s & _ & _ & _ & _ & _ & V).
+    apply F in V. destruct V as [(x & Hx & Em & Ev)|(x & Hx & Em & _)].
+    + rewrite Forall_forall in SU. destruct (SU x Hx) as [Lx Sx].
+      apply uid_message_injective in Em; auto. destruct Em as (_ & E2 & E3 & E4).
+      exists x. repeat split; auto.
+    + exfalso. revert Em. apply uid_vs_binding_disjoint; auto.
+  - intros sk Hs Lk Ss. destruct (subkey_bound _ _ _ _ R sk Hs) as (s & _ & _ & _ & V & _).
+    apply F in V. destruct V as [(x & Hx & Em & _)|(x & Hx & Em & Ev)].
+    + exfalso. symmetry in Em. revert Em. apply uid_vs_binding_disjoint; auto.
+    + rewrite Forall_forall in SS. destruct (SS x Hx) as [Lx Sx].
+      apply binding_message_injective in Em; auto. destruct Em as (_ & E2 & E3 & E4).
+      exists x. repeat split; auto.
+Qed.
+
+(* the hypothesis is satisfiable together with an accepted key *)
+Example ex_any_key_sensitive :
+  any_key_sensitive ex_strict (genuine_of false ex_key [mksu (bs "a") (s_core ex_sig)] []) /\
+  is_ok (read_entity fixed ex_strict ex_evs) = true.
+Proof.
+  split; [|vm_compute; reflexivity].
+  intros c k msg s (_ & dg & D & _). left. exists (mksu (bs "a") (s_core ex_sig)). split; [left; reflexivity|].
+  split; [|discriminate]. simpl in D. destruct (bytes_eqb msg ex_msg) eqn:E; [|discriminate].
+  apply bytes_eqb_eq in E. exact E.
+Qed.
